@@ -182,14 +182,20 @@ def strategies(profile, max_ops=40):
             if nest >= 2 and cpu % 2 == 0:
                 # a second cancel one level further down (beneath the group just cancelled) or, wrapping round, further up
                 extra.append(['cancel', 0, (cg + 1) % (nest + 1)])
-            if under is not None:
+            if under is not None and nest in (1, 2) and under[0] % 2:
+                # aimed: an update is opened, THEN an ancestor (the batch root: groups nest two levels deep at most) of the group it
+                # targets is cancelled, then its bunches arrive: the target is only a descendant of the cancelled group
+                top = f'L{nest}'
+                extra = [['update', 0, [top], [{'g': top, 'parents': [], 'cpu': 1}]], ['cancel', 0, 0],
+                         ['groups', -1, None, False], ['jobs', -1, None, False], ['commit', -1]]
+            elif under is not None:
                 extra += [['update', 0, [under[0]], [{'g': under[1], 'parents': [], 'cpu': 1}]], ['groups', -1, None, False],
                           ['jobs', -1, None, False], ['commit', -1]]
             steps[at:at] = extra
         return steps
 
     chains = st.builds(chain, st.booleans(), st.booleans(), st.integers(0, 5), cstate, st.sampled_from([0, 0, 0, 1, 2, 3, 4]),
-                       st.sampled_from([0, 0, 1, 2, 3]), st.integers(0, 4),
+                       st.sampled_from([0, 0, 1, 2, 2]), st.integers(0, 4),
                        st.one_of(st.none(), st.tuples(st.integers(0, 5), st.integers(0, 5)).map(list)), st.sampled_from([False, False, True]))
     child = st.fixed_dictionaries({'g': st.integers(0, 3), 'parents': st.lists(st.sampled_from([-1, -1, 0, 1, 2]), min_size=1, max_size=2),
                                    'cpu': st.integers(0, 5)}, optional={'ar': st.booleans(), 'pool': st.sampled_from([0, 0, 2])})
